@@ -312,3 +312,98 @@ lemma(
     trusted_reason="file-system effects (pathlib/open/mmap): BOUNDED native check on a scratch directory, not a proof",
     native_samples=_sink_samples,
 )
+
+
+# ---- the process-wide lock is ONE lock, under any interleaving of its first users --------------------------------------------------
+
+
+class _RaceDict:
+    """the module's `_state` as seen by one worker while others run: before every operation another worker
+    may have stored ITS lock (rely: the others only ever store a lock atomically when none is there).
+    `setdefault` is atomic (one dict operation under the GIL: assumed); get / in / [] / []= are separate steps."""
+
+    def __init__(self, decide, other, events):
+        self.stored, self.decide, self.other, self.events = None, decide, other, events
+
+    def _interfere(self):
+        if self.stored is None and self.decide():
+            self.stored = self.other
+            self.events.append("other-stored")
+
+    def get(self, k, default=None):
+        self._interfere()
+        return self.stored if self.stored is not None else default
+
+    def __contains__(self, k):
+        self._interfere()
+        return self.stored is not None
+
+    def __getitem__(self, k):
+        self._interfere()
+        if self.stored is None:
+            raise KeyError(k)
+        return self.stored
+
+    def setdefault(self, k, v):
+        self._interfere()
+        if self.stored is None:
+            self.stored = v
+        return self.stored
+
+    def __setitem__(self, k, v):
+        self._interfere()
+        if self.stored is not None and self.stored is not v:
+            self.events.append("overwrote-existing-lock")
+        self.stored = v
+
+
+def _run_local_lock(decide):
+    m = repo(S3)
+    events = []
+    other = object()
+    st = _RaceDict(decide, other, events)
+    saved = m._state
+    try:
+        m._state = st
+        got = m._mpu_local_lock()
+        again = m._mpu_local_lock()
+    finally:
+        m._state = saved
+    return got, again, st, events, other
+
+
+def _lemma_local_lock(d0, d1, d2, d3):
+    ds = [d0, d1, d2, d3]
+
+    def decide():
+        return bool(ds.pop(0)) if ds else False
+
+    got, again, st, events, other = _run_local_lock(decide)
+    claim("overwrote-existing-lock" not in events, "a lock another worker has already stored is never replaced")
+    claim(got is st.stored, "the lock handed out is the one every later caller gets")
+    claim(again is got, "asking again returns the same lock")
+    claim(("other-stored" not in events) or got is other, "if another worker got there first, ITS lock is the one used: never two different locks for one process")
+
+
+def _local_lock_oracle(args, run=None):
+    """native: every interference pattern of the same adversarial dictionary on the real function"""
+    import itertools
+
+    fails = []
+    for pattern in itertools.product([False, True], repeat=4):
+        ds = list(pattern)
+        got, again, st, events, other = _run_local_lock(lambda: ds.pop(0) if ds else False)
+        if "overwrote-existing-lock" in events or got is not st.stored or again is not got or ("other-stored" in events and got is not other):
+            fails.append(f"claim:one process-wide lock (another worker stores its lock at steps {[i for i, p in enumerate(pattern) if p]} of this call: events {events}, same lock handed out: {got is st.stored and again is got})")
+            break
+    return fails
+
+
+lemma(
+    "s3.local_lock_is_unique",
+    ["C18"],
+    inputs=dict(d0=Bool(), d1=Bool(), d2=Bool(), d3=Bool()),
+    body=_lemma_local_lock,
+    native_oracle=_local_lock_oracle,
+    note="rely/guarantee on the module-level lock table: interference (another worker storing its lock) is possible before each of the first four dictionary operations of a call; dict.setdefault is one atomic step (GIL, assumed)",
+)
